@@ -695,6 +695,28 @@ func c09Check(c *mc.Ctx, o *c09Oracle, cs c09Case) {
 			k.viol("earlier-result-changed-by-later-alignment", fmt.Sprintf("rows were %q/%q; after another aligner aligned the swapped pair they read %q/%q (returned alignment %q/%q)", before1, before2, r1, r2, n1, n2))
 		}
 	}
+	// an aligner asked twice (a caller that changes the scheme and aligns again): after the second call the
+	// counts still add up to the length it reports
+	if al != nil {
+		var m2, x2, g2, l2 int
+		if pn, msg := mc.Guard(func() {
+			a3 := align.NewPwAligner(align.NewSequence("u1", []byte(cs.S1), ""), align.NewSequence("u2", []byte(cs.S2), ""), align.ALIGN_ALGO_SW)
+			c09Configure(a3, &cs, cs.Mode == "mm")
+			if _, e := a3.Alignment(); e != nil {
+				return
+			}
+			if _, e := a3.Alignment(); e != nil {
+				return
+			}
+			m2, x2, g2, l2 = a3.NbMatches(), a3.NbMisMatches(), a3.NbGaps(), a3.Length()
+		}); pn {
+			k.viol("panic/"+mc.PanicSite(msg), "Alignment() called twice on one aligner: "+msg)
+			return
+		}
+		if m2+x2+g2 != l2 {
+			k.viol("counts-after-second-call", fmt.Sprintf("after Alignment() was called twice on one aligner: %d matches + %d mismatches + %d gaps != length %d", m2, x2, g2, l2))
+		}
+	}
 	kindTag := cs.Mode
 	if cs.Mode == "matrix" {
 		kindTag += "-" + kind
